@@ -582,9 +582,34 @@ func (a *Adversary) forgedNV(h uint64) bool {
 			return false
 		}
 		E := a.newBlock(h, true)
-		extra := a.mkVote(leader, inst, h, v, a.forgeProof(h, v-1, E))
-		if a.r.Intn(2) == 0 {
+		var extra *ref.Vote
+		switch a.r.Intn(4) {
+		case 0:
+			extra = a.mkVote(leader, inst, h, v, a.forgeProof(h, v-1, E))
+		case 1:
 			extra = a.mkVote(leader, inst, h, v, a.sigLessProof(h, v-1, E))
+		default:
+			// the leader's genuine vote of the parallel instance (same keys) for this height and view, carrying that instance's
+			// genuine prepared certificate for the block: every signature in it verifies
+			oi := a.otherInst()
+			pp := &ref.Ref{Type: ref.PP, Inst: oi, H: h, V: v - 1, Hash: spi.HashOf(E)}
+			pr := &ref.Ref{Type: ref.P, Inst: oi, H: h, V: v - 1, Hash: spi.HashOf(E)}
+			pl := c.Leader(v - 1)
+			op := &ref.Proof{PPRef: pp, PRef: pr, PPSender: &ref.Sig{Id: pl, Sig: a.signOther(pl, h, pp.Bytes())}}
+			ids := []string{pl}
+			for _, mm := range c.Members {
+				id := string(mm.Id)
+				if id == pl {
+					continue
+				}
+				op.PSenders = append(op.PSenders, ref.Sig{Id: id, Sig: a.signOther(id, h, pr.Bytes())})
+				ids = append(ids, id)
+				if c.IsQuorum(ids) {
+					break
+				}
+			}
+			extra = &ref.Vote{Type: ref.VC, Inst: oi, H: h, V: v, Proof: op}
+			extra.Sender = ref.Sig{Id: leader, Sig: a.signOther(leader, h, extra.HeaderBytes())}
 		}
 		votes = append(votes, extra)
 		a.sendSome(leader, a.at(h), a.mkNV(leader, h, v, votes, spi.HashOf(E), E, v), 90)
